@@ -400,7 +400,8 @@ def grammar_text_alt(start, rng, rules, bm=False, ignores=(), choice_ctor_ok=Tru
     for i, s in enumerate(stmts):
         out.append(s)
         if i + 1 < len(stmts):
-            sep = rng.choice(['\n', '\n', ';', ' ; ', '\n\n', ' # trailing comment\n', '\n# own line\n', ';\n'])
+            sep = rng.choice(['\n', '\n', ';', ' ; ', '\n\n', ' # trailing comment\n', '\n# own line\n', ';\n',
+                              '\r', '\r\n', ' # trailing comment\r', ' # trailing comment\r\n', '\r# own line\r'])
             out.append(sep)
     out.append(rng.choice(['\n', '', '\n\n', ' # end\n', ';\n']) if not bare else rng.choice(['', '\n']))
     return ''.join(out)
